@@ -119,6 +119,27 @@ def tz_property(a, pid, driver, rule_text, extra=()):
         cfg = "MC_TzLookup.cfg" if a.tier == "quick" else "MC_TzLookup_thorough.cfg"
         r = tlc_mc("MC_TzLookup.tla", cfg, os.path.join(workdir(pid, False), "mc"))
         c.add_mc(r)
+        if pid == "C03":
+            # oracle self-check: the independent reader + TzLookup.tla against tzcode's zdump on the system zones
+            import shutil as _sh
+            if _sh.which("zdump"):
+                names = ["America/New_York", "Europe/London", "Australia/Lord_Howe", "Africa/Monrovia", "Asia/Kathmandu", "Pacific/Apia",
+                         "America/St_Johns", "Europe/Dublin", "Africa/Casablanca", "Antarctica/Troll", "Asia/Tehran", "Pacific/Kiritimati"]
+                if a.tier != "quick":
+                    zi = "/usr/share/zoneinfo"
+                    names = sorted({os.path.relpath(os.path.join(dp, f), zi) for dp, _, fs in os.walk(zi) for f in fs
+                                    if "/posix" not in dp and "/right" not in dp and open(os.path.join(dp, f), "rb").read(4) == b"TZif"})
+                wdz = os.path.join(workdir(pid, False), "zdump")
+                os.makedirs(wdz, exist_ok=True)
+                subprocess.run([sys.executable, os.path.join(VERIF, "lib", "zdump_oracle.py"), binary, wdz] + names, check=True)
+                trs = sorted(os.path.join(wdz, f) for f in os.listdir(wdz) if f.endswith(".ndjson"))
+                tr = trs[0]
+                _, zm = tlc_trace("Trace_Tz.tla", trs, pid)
+                if zm:
+                    raise ToolError(f"the zone oracle (independent reader + TzLookup.tla) disagrees with zdump on {len(zm)} observations, "
+                                    f"e.g. {zm[0][2]}: {json.dumps(zm[0][3])[:300]}")
+                n = sum(sum(1 for _ in open(t)) for t in trs)
+                c.add_summary({"stem": "zdump", "events": n, "files": trs, "classes": {"zdump-oracle": n}, "distinct_nontrivial": 0, "samples": {}})
         drive_and_validate(c, a, binary, driver, "Trace_Tz.tla", extra=ex)
     c.rule = TZ_RULE + rule_text
     c.assumptions = TRUSTED + ["the harness's independent TZif / POSIX TZ readers (tzread.rs; no jiff code)",
